@@ -289,13 +289,15 @@ def run(chk):
     fails, dis = [], []
     histories_check(chk, fails, stats)
     navigation_check(chk, fails, dis, stats)
+    import wire
+    wire.run(chk, fails, dis, stats)
     for c, go, m, why in fails[:10]:
         chk.violation("oracle", case=c, go=go, model=m, oracle=why)
     if not fails:
         for t in broken:
             chk.violation("theorem:%s no longer checks" % t, found_input=False, site="theorem:" + t)
         for c, go, m, why in dis[:3]:
-            chk.violation("correspondence:navigation model and implementation differ on %s" % why, case=c, go=go, model=m, found_input=False)
+            chk.violation("correspondence:model and implementation differ on %s" % why, case=c, go=go, model=m, found_input=False)
     stats["model_disagreements"] = len(dis)
     stats["oracle_failures"] = len(fails)
     chk.coverage.update(stats)
